@@ -225,7 +225,7 @@ def strategy(spec, ctx):
 
 def shards(tier):
     n = 16 if tier == 'quick' else 64
-    return [{'examples': 400 if tier == 'quick' else 2500} for _ in range(n)]
+    return [{'examples': 1200 if tier == 'quick' else 8000} for _ in range(n)]
 
 
 def run_shard(spec, ctx):
